@@ -65,7 +65,27 @@ def unrelated_world():
     }
 
 
-BASES = {'chain3': families.chain3, 'diamond': families.diamond, 'uses2': families.uses2, 'mount2': families.mount2, 'ctxmove': families.ctxmove, 'unrel': unrelated_world}
+def nsvar_world():
+    """the same sub-pipeline mounted under DIFFERENT namespaces by different member configs (required and optional inputs inside it)"""
+    bn = families.by_name
+    return {
+        'name': 'nsvar',
+        'tasks': {
+            'Cal': {'name': 'calib', 'params': [P('c', default=7)], 'inputs': [], 'data': 'json'},
+            'Sc': {'name': 'score', 'params': [], 'inputs': [{'how': 'opt_name', 'ref': 'calib', 'default': 0}], 'data': 'json'},
+            'Top': {'name': 'top', 'params': [], 'inputs': [bc('Sc')], 'data': 'json'},
+            'Za': {'name': 'z', 'params': [], 'inputs': [bn('a::top')], 'data': 'json'},
+            'Zb': {'name': 'z', 'params': [], 'inputs': [bn('b::top')], 'data': 'json'},
+        },
+        'configs': {'root': {'medium': 'json', 'tasks': ['Za'], 'values': {}, 'uses': [{'config': 'sub', 'as': 'a'}]},
+                    'sub': {'medium': 'json', 'tasks': ['Cal', 'Sc', 'Top'], 'values': {}}},
+        'root': 'root',
+        'variants': {'va': [], 'vb': [[['configs', 'root', 'tasks'], ['Zb']], [['configs', 'root', 'uses'], [{'config': 'sub', 'as': 'b'}]]],
+                     'va2': [[['configs', 'sub', 'values', 'c'], 8]]},
+    }
+
+
+BASES = {'nsvar': nsvar_world, 'chain3': families.chain3, 'diamond': families.diamond, 'uses2': families.uses2, 'mount2': families.mount2, 'ctxmove': families.ctxmove, 'unrel': unrelated_world}
 
 
 def lists(tier):
